@@ -4,12 +4,7 @@ coq/Properties/Cxx.v present and listed in CLAIMED)."""
 import json, subprocess
 from pathlib import Path
 V = Path(__file__).resolve().parent.parent
-CLAIMED = {
- 'C11': dict(
-   text='Machine-checked theorems (Coq) about the model of normalize_index / zero_pad_or_crop: every index in [-ndim,ndim) incl. 0 means i mod ndim, re-encoding or re-ordering dims selects the same target shape and result, size-preserving axes are batch axes; for all ranks, sizes and encodings. The model is tied to the source on every run by regenerated proof obligations (ast translator) and by exact correspondence on seeded cases; metamorphic oracles cover the other dim-taking operators on the implementation.',
-   note='Trusted: Coq kernel + vm_compute; translator harness/translate/zeropad.py; correspondence harness; torch F.pad/fft/conv1d/ptwt as oracles. Theorems closed under the global context. Operators other than zero_pad_or_crop/ZeroPadOp are decided by implementation-level metamorphic checks (partial).',
-   technique='Coq proof (lia, induction) + ast translator obligations + vm_compute correspondence', ref='3 C11'),
-}
+CLAIMED = {f.stem: json.loads(f.read_text()) for f in sorted((Path(__file__).resolve().parent.parent / 'manifest.d').glob('C*.json'))}
 REASON_NOT_YET = 'machinery for this property is not built yet in this revision (see DESIGN.md section 5 staging)'
 def main():
     props = [json.loads(l) for l in (V / 'properties.jsonl').read_text().splitlines() if l.strip()]
